@@ -461,6 +461,11 @@ func (fs *readOnlyFsInternal) populateFS(bundle *core.Bundle) (*ReadOnlyFS, erro
 		return nil, err
 	}
 
+	// the root directory may be listed, even when the bundle holds no file
+	if _, ok := fs.readDirMap[fuseops.RootInodeID]; !ok {
+		fs.readDirMap[fuseops.RootInodeID] = []fuseutil.Dirent{}
+	}
+
 	fs.l.Info("Populating fs", zap.Int("entryCount", len(fs.bundle.BundleEntries)))
 	if err := populateFSAddBundleEntries(&populate{fs: fs, bundle: bundle, txns: txns}); err != nil {
 		return nil, err
